@@ -7,6 +7,7 @@ import (
 	"bytes"
 	"encoding/base64"
 	"fmt"
+	"github.com/containerd/console"
 	"strconv"
 	"strings"
 	"sync"
@@ -292,11 +293,56 @@ type Fixture struct {
 	stubD   chan struct{}
 }
 
+// probeConsole changes the terminal's answer to the explicit-width probe of start-up (the first
+// cursor-position report): "silent" = no answer, "col7" = the cursor is reported in column 7 (a
+// terminal that printed the payload of the OSC it does not know).  Everything else passes through.
+type probeConsole struct {
+	*fakeconsole.Console
+	mode string
+	done bool
+}
+
+func (p *probeConsole) Read(b []byte) (int, error) {
+	for {
+		n, err := p.Console.Read(b)
+		if p.done || n == 0 || err != nil {
+			return n, err
+		}
+		s := string(b[:n])
+		i := strings.Index(s, "\x1b[1;1R")
+		if i < 0 {
+			i = strings.Index(s, "\x1b[1;2R")
+		}
+		if i < 0 {
+			return n, err
+		}
+		p.done = true
+		if p.mode == "silent" {
+			s = s[:i] + s[i+6:]
+		} else {
+			s = s[:i] + "\x1b[1;7R" + s[i+6:]
+		}
+		n = copy(b, s)
+		if n > 0 {
+			return n, nil
+		}
+	}
+}
+
 // NewFixture starts a Vaxis on a fake console advertising `mask`; queue = EventQueueSize (0 = default).
 // A collector goroutine drains Events() continuously.
 func NewFixture(mask uint32, queue int, collect bool) (*Fixture, error) {
+	return NewFixtureProbe(mask, queue, collect, "")
+}
+
+// NewFixtureProbe: as NewFixture, with the probe's answer altered ("" / "std" = the scripted answer).
+func NewFixtureProbe(mask uint32, queue int, collect bool, probe string) (*Fixture, error) {
 	fc := fakeconsole.New(80, 24, fakeconsole.FromMask(mask))
-	vx, err := vaxis.New(vaxis.Options{WithConsole: fc, NoSignals: true, EventQueueSize: queue})
+	var con console.Console = fc
+	if probe == "silent" || probe == "col7" {
+		con = &probeConsole{Console: fc, mode: probe}
+	}
+	vx, err := vaxis.New(vaxis.Options{WithConsole: con, NoSignals: true, EventQueueSize: queue})
 	if err != nil {
 		return nil, err
 	}
